@@ -73,6 +73,13 @@ CORNER = [
     '<start> ::= r"a*" "a"\n',
     '<start> ::= "x" r"[0-9]*"\n',
     '<start> ::= (r"[0-9]*")* "x"\n',
+    # the same unbounded operator nested directly in its own operand, within ONE production (node ids of the inner
+    # and the outer repetition must stay apart: seeded change C05-1)
+    '<start> ::= ("a"* "b")* "c"\n',
+    '<start> ::= ("a"+ "b")+ "c"\n',
+    '<start> ::= (("a"* "b")* "c")* "d"\n',
+    '<start> ::= ("x" ("a"+ | "b")+)+\n',
+    '<start> ::= ("a"* ("b"* "c")*)* "."\n',
     '<start> ::= ("ab"){2}\n',
     '<start> ::= ("ab"){1,3} "c"\n',
     '<start> ::= ("ab"){0,2} "a"\n',
